@@ -12,6 +12,10 @@
 #ifdef H_addRootLevel
 #include "contracts/signature_builder_level.h"
 #endif
+#ifdef H_openFromResp
+#include "net.c"
+#include "contracts/signature_builder_open.h"
+#endif
 #include "signature_builder.c"
 
 static struct KSI_Signature_st s_sig; static KSI_CTX s_ctx;
@@ -20,16 +24,41 @@ static struct KSI_Signature_st s_sig; static KSI_CTX s_ctx;
 void harness(void) {
 	KSI_uint64_t lvl = nondet_ull();
 	int res;
-	memset(&g_b, 0, sizeof(g_b)); g_b_chain_live = 0;
+	memset(&g_b, 0, sizeof(g_b)); g_b_chain_live = 0; c07b_init_lists();
 	g_b_tl_len = nondet_size();
+#ifdef C07_TL_MAX
+	if (g_b_tl_len > C07_TL_MAX) g_b_tl_len = C07_TL_MAX;       /* stated bound of the job */
+#endif
 	g_b.has_old = nondet_bool(); g_b.old_value = nondet_ull(); g_b.int_live = g_b.has_old ? 1 : 0;
 	g_b_oldint.value = g_b.old_value; g_b_link.levelCorrection = g_b.has_old ? &g_b_oldint : NULL;
-	s_sig.ctx = &s_ctx; s_sig.aggregationChainList = (void *)&g_b_chainlist; s_sig.baseTlv = nondet_ptr();
+	s_sig.ctx = &s_ctx; s_sig.aggregationChainList = &g_b_chainlist; s_sig.baseTlv = nondet_ptr();
 	res = updateLevelCorrection(nondet_bool() ? &s_sig : NULL, lvl, add);
 	if (res == KSI_OK && lvl > 0) REACH("root level added");
 	if (res == KSI_OK && lvl == 255 && !g_b.has_old) REACH("root level 255 on a link without correction");
-	if (res == KSI_OK && lvl > 0 && g_b_tl_len > 2) REACH("root level added, longer TLV list");
+	if (res == KSI_OK && lvl > 0 && g_b_tl_len > 2) REACH("root level added, TLV list of 3 or more");
 	if (res == KSI_INVALID_FORMAT && lvl <= 0xff && lvl > 0) REACH("sum beyond 0xff refused");
 	if (res == KSI_BUFFER_OVERFLOW) REACH("64-bit wrap refused");
+}
+#endif
+
+#ifdef H_openFromResp
+static struct KSI_AggregationResp_st s_resp; static struct KSI_TLV_st s_base; static struct KSI_Integer_st s_status;
+void harness(void) {
+	static struct KSI_SignatureBuilder_st prev;
+	KSI_SignatureBuilder *out = nondet_bool() ? &prev : NULL;
+	int res;
+	memset(&g_b, 0, sizeof(g_b)); memset(&g_bl, 0, sizeof(g_bl)); g_b_chain_live = 0; c07b_init_lists();
+	g_b_tl_len = nondet_size(); g_b_al_len = nondet_size();
+	s_resp.ctx = &s_ctx; s_resp.baseTlv = nondet_bool() ? &s_base : NULL; s_base.tag = nondet_uint();
+	s_status.value = nondet_ull(); s_resp.status = nondet_bool() ? &s_status : NULL;
+	s_resp.aar = nondet_ptr(); s_resp.car = nondet_ptr(); s_resp.cal = nondet_ptr();
+	s_resp.chains = nondet_bool() ? &g_b_chainlist : NULL;
+	res = KSI_SignatureBuilder_openFromAggregationResp(nondet_bool() ? &s_resp : NULL, nondet_bool() ? &out : NULL);
+	if (res == KSI_OK) REACH("builder opened");
+	if (res == KSI_OK && s_resp.status == NULL) REACH("builder opened from a reply without status element");
+	if (res == KSI_OK && g_b_al_len > 2 && s_resp.chains != NULL) REACH("builder opened, several aggregation chains");
+	if (res == KSI_SERVICE_UPSTREAM_TIMEOUT) REACH("status 0x301 converted");
+	if (res == KSI_SERVICE_UNKNOWN_ERROR) REACH("unknown status converted");
+	if (res == KSI_OK) { KSI_SignatureBuilder_free(out); }
 }
 #endif
